@@ -9,18 +9,19 @@
 (*            next waiter                                                                      *)
 (*   release: value += 1; wake the first waiter that is not done (value -= 1 for it)           *)
 (* Environment actions (what a caller does): Start(r) = workflow.run(), Finish(r) = the run's  *)
-(* steps complete, Cancel(r) = handler.cancel() on a run that has not begun to execute (hard   *)
+(* steps complete, Fail(r) = a step of the executing run raises (the run ends with an error;   *)
+(* `async with sem` releases the slot on every way out), Cancel(r) = handler.cancel() on a run that has not begun to execute (hard   *)
 (* abort of a queued run's task; aborting an executing run is outside the statement's          *)
 (* start/finish quantifier).  Task steps (one suspension-free section each): Arrive, Resume,   *)
 (* CancelResume, Exit.                                                                         *)
 (*****************************************************************************)
 EXTENDS Naturals, Sequences, FiniteSets, TLC
 
-CONSTANTS Runs, Insts, InstOf, Limit, MaxCancel
+CONSTANTS Runs, Insts, InstOf, Limit, MaxCancel, MaxFail
 
 VARIABLES
-  pc,        \* Runs -> {"idle","started","waiting","exec","exiting","done","cancelled"}
-  why,       \* Runs -> {"ok","cancel"}
+  pc,        \* Runs -> {"idle","started","waiting","exec","exiting","done","cancelled","error"}
+  why,       \* Runs -> {"ok","cancel","fail"}
   value,     \* Insts -> Nat                  Semaphore._value
   waiters,   \* Insts -> Seq([r, fut])        Semaphore._waiters; fut in {"pending","woken","cancelled"}
   must,      \* Runs -> BOOLEAN               Task._must_cancel (cancel hit an already woken waiter)
@@ -59,6 +60,12 @@ Finish(r) ==
   /\ pc[r] = "exec"
   /\ pc' = [pc EXCEPT ![r] = "exiting"]
   /\ why' = [why EXCEPT ![r] = "ok"]
+  /\ UNCHANGED <<value, waiters, must, ncancel>>
+
+Fail(r) ==
+  /\ pc[r] = "exec" /\ Cardinality({q \in Runs : why[q] = "fail"}) < MaxFail
+  /\ pc' = [pc EXCEPT ![r] = "exiting"]
+  /\ why' = [why EXCEPT ![r] = "fail"]
   /\ UNCHANGED <<value, waiters, must, ncancel>>
 
 Cancel(r) ==
@@ -115,11 +122,11 @@ Exit(r) ==
   /\ LET i == I(r) w == Wake(waiters[i], value[i] + 1) IN
      /\ waiters' = [waiters EXCEPT ![i] = w.ws]
      /\ value' = [value EXCEPT ![i] = w.v]
-  /\ pc' = [pc EXCEPT ![r] = IF why[r] = "ok" THEN "done" ELSE "cancelled"]
+  /\ pc' = [pc EXCEPT ![r] = IF why[r] = "ok" THEN "done" ELSE IF why[r] = "fail" THEN "error" ELSE "cancelled"]
   /\ UNCHANGED <<why, must, ncancel>>
 
 TaskStep(r) == Arrive(r) \/ Resume(r) \/ CancelResume(r) \/ Exit(r)
-EnvStep(r) == Start(r) \/ Finish(r) \/ Cancel(r)
+EnvStep(r) == Start(r) \/ Finish(r) \/ Fail(r) \/ Cancel(r)
 Next == \E r \in Runs : TaskStep(r) \/ EnvStep(r)
 Spec == Init /\ [][Next]_vars
 FairSpec == Spec /\ \A r \in Runs : WF_vars(TaskStep(r)) /\ WF_vars(Finish(r))
@@ -134,7 +141,7 @@ Inv_Value == \A i \in Insts : value[i] + Cardinality(Holders(i)) + Cardinality(W
 Inv_Baton == \A i \in Insts : (value[i] > 0 /\ waiters[i] # <<>>) =>
                 \E k \in 1..Len(waiters[i]) :
                    waiters[i][k].fut \in {"woken", "cancelled"} \/ must[waiters[i][k].r]
-Inv_Cleanup == (\A r \in Runs : pc[r] \in {"idle", "done", "cancelled"})
+Inv_Cleanup == (\A r \in Runs : pc[r] \in {"idle", "done", "cancelled", "error"})
                  => \A i \in Insts : value[i] = Limit[i] /\ waiters[i] = <<>>
 (* separate instances have independent limits: a run only ever waits on its own instance *)
 Act_Independence == [][\A r \in Runs : (pc[r] = "started" /\ pc'[r] = "waiting")
@@ -142,6 +149,6 @@ Act_Independence == [][\A r \in Runs : (pc[r] = "started" /\ pc'[r] = "waiting")
 (* every started run eventually executes (or is cancelled) *)
 Live_Executes == \A r \in Runs : (pc[r] \in {"started", "waiting"}) ~> (pc[r] \notin {"started", "waiting"})
 TypeOK ==
-  /\ pc \in [Runs -> {"idle", "started", "waiting", "exec", "exiting", "done", "cancelled"}]
+  /\ pc \in [Runs -> {"idle", "started", "waiting", "exec", "exiting", "done", "cancelled", "error"}]
   /\ \A i \in Insts : value[i] \in 0..Limit[i]
 =============================================================================
